@@ -338,6 +338,10 @@ def skelInstr : Instr → List String
   | .ret => ["x"]
   | .direct s ctx => directSkel ctx s
 
-def skeleton (code : List Instr) : List String := code.flatMap skelInstr
+/-- a function without any flattened statement is emitted in plain direct form (`return x;`, no `$s`) -/
+def skeleton (code : List Instr) : List String :=
+  match code with
+  | [.direct _ _] => []
+  | _ => code.flatMap skelInstr
 
 end GV.Flat
